@@ -1,7 +1,6 @@
 package rules
 
 import (
-	"go/constant"
 	"go/token"
 	"go/types"
 	"math"
@@ -781,88 +780,8 @@ func (c *Ctx) boundedAccumulation(rule string) {
 		if f == nil {
 			continue
 		}
-		ok := false
-		for _, b := range f.Blocks {
-			iff := engine.IfOf(b)
-			if iff == nil {
-				continue
-			}
-			cmp, isCmp := iff.Cond.(*ssa.BinOp)
-			if !isCmp {
-				continue
-			}
-			var cst *ssa.Const
-			var other ssa.Value
-			exceedsIx := -1
-			if k, isK := cmp.Y.(*ssa.Const); isK {
-				cst, other = k, cmp.X
-				switch cmp.Op {
-				case token.GTR, token.GEQ:
-					exceedsIx = 0
-				case token.LEQ, token.LSS:
-					exceedsIx = 1
-				}
-			} else if k, isK := cmp.X.(*ssa.Const); isK {
-				cst, other = k, cmp.Y
-				switch cmp.Op {
-				case token.LSS, token.LEQ:
-					exceedsIx = 0
-				case token.GTR, token.GEQ:
-					exceedsIx = 1
-				}
-			}
-			if cst == nil || exceedsIx < 0 || cst.Value == nil || cst.Value.Kind() != constant.Int {
-				continue
-			}
-			lim, exact := constant.Uint64Val(cst.Value)
-			if !exact || lim > math.MaxUint32+1 {
-				continue
-			}
-			// the compared value is part of a loop-carried accumulation (reaches a phi that it feeds)
-			inLoop := false
-			for _, blk := range f.Blocks {
-				if body := engine.LoopBody(blk); body != nil && body[b] {
-					inLoop = true
-				}
-			}
-			accum := false
-			engine.Backward(other, engine.FlowOpts{}, func(x ssa.Value) bool {
-				if _, isPhi := x.(*ssa.Phi); isPhi {
-					accum = true
-				}
-				if bo, isB := x.(*ssa.BinOp); isB {
-					engine.Backward(bo.X, engine.FlowOpts{}, func(y ssa.Value) bool {
-						if _, isPhi := y.(*ssa.Phi); isPhi {
-							accum = true
-						}
-						if b2, ok := y.(*ssa.BinOp); ok {
-							if _, isPhi := b2.X.(*ssa.Phi); isPhi {
-								accum = true
-							}
-						}
-						return true
-					})
-				}
-				return true
-			})
-			// the exceeding edge returns a non-nil error
-			errRet := false
-			tgt := b.Succs[exceedsIx]
-			for _, blk := range f.Blocks {
-				if blk == tgt || engine.EdgeDominates(b, exceedsIx, blk) {
-					if len(blk.Instrs) > 0 {
-						if ret, isRet := blk.Instrs[len(blk.Instrs)-1].(*ssa.Return); isRet {
-							if lr := engine.LastResult(ret); lr != nil && !engine.IsNilConst(lr) {
-								errRet = true
-							}
-						}
-					}
-				}
-			}
-			if inLoop && accum && errRet {
-				ok = true
-			}
-		}
+		le, edges := c.accumulatorBound(f)
+		ok := edges > 0 && le(math.MaxUint32)
 		R.Check(ok, rule, name+"|bounded-accumulation", P.Pos(f.Pos()),
 			"the accumulated number is compared with a constant <= 2^32-1 inside the loop and the exceeding edge is an error",
 			"the digits are accumulated without an upper bound <= 2^32-1 checked on every step: numbers beyond 32 bits wrap or are truncated by the later conversion to SeqID/UID and select some other message")
@@ -1211,4 +1130,68 @@ func reachingStores(f *ssa.Function, addr ssa.Value, cut engine.Edge) func(at ss
 		}
 		return res, true
 	}
+}
+
+// accumulatorBound finds the loop-carried integer accumulators of f that reach its first result and
+// returns a decision procedure "every value fed back into the accumulator inside the loop is proved
+// <= bound" (branch conditions dominating the back edge, including those of validating helpers on
+// their nil-error edge), together with the number of such back-edge values.
+func (c *Ctx) accumulatorBound(f *ssa.Function) (func(bound int64) bool, int) {
+	isAccum := map[*ssa.Phi]bool{}
+	for _, ret := range engine.Returns(f) {
+		if len(ret.Results) == 0 {
+			continue
+		}
+		engine.Backward(ret.Results[0], engine.FlowOpts{}, func(x ssa.Value) bool {
+			if p, ok := x.(*ssa.Phi); ok {
+				isAccum[p] = true
+			}
+			return true
+		})
+	}
+	type edge struct {
+		pred *ssa.BasicBlock
+		succ int
+		v    ssa.Value
+	}
+	var edges []edge
+	for _, b := range f.Blocks {
+		if !BlockInCycle(b) {
+			continue
+		}
+		reach := engine.BlocksReachableFrom(b)
+		for _, in := range b.Instrs {
+			phi, ok := in.(*ssa.Phi)
+			if !ok {
+				break
+			}
+			bt, isBasic := phi.Type().Underlying().(*types.Basic)
+			if !isAccum[phi] || !isBasic || bt.Info()&types.IsInteger == 0 {
+				continue
+			}
+			for i, e := range phi.Edges {
+				pred := b.Preds[i]
+				if !reach[pred] || e == ssa.Value(phi) {
+					continue
+				}
+				if _, same := e.(*ssa.Phi); same && e.(*ssa.Phi).Block() == b {
+					continue
+				}
+				for si, sb := range pred.Succs {
+					if sb == b {
+						edges = append(edges, edge{pred, si, e})
+					}
+				}
+			}
+		}
+	}
+	le := func(bound int64) bool {
+		for _, e := range edges {
+			if !engine.EntailedOnEdge(f, e.pred, e.succ, e.v, bound, true, c.P.IsOwn) {
+				return false
+			}
+		}
+		return true
+	}
+	return le, len(edges)
 }
